@@ -17,9 +17,13 @@ inline void global_init()
 	static bool done = false;
 	if (done) return;
 	done = true;
-	FIX8::GlobalLogger::set_global_filename("/dev/null");
+	// NOT /dev/null: FileLogger rotates its file on construction (rename name -> name.1 ...), which as root would
+	// rename the device node away. A private scratch file, removed again at once.
+	const char *tmp = getenv("TMPDIR"); std::string path = std::string(tmp && *tmp ? tmp : "/tmp") + "/fix8-verif-glog-" + std::to_string((long)getpid()) + ".log";
+	FIX8::GlobalLogger::set_global_filename(path);
 	FIX8::GlobalLogger::set_levels(FIX8::Logger::Levels(FIX8::Logger::None));
 	FIX8::GlobalLogger::stop();
+	::unlink(path.c_str());
 }
 
 inline std::string hex(const std::string& s, size_t max = 48)
